@@ -1,0 +1,36 @@
+//! Verification hooks, only compiled with the `verif` feature.
+//!
+//! A thread-local counter of the octets handed out by `Decoder::read` and `Decoder::bytes`, with
+//! an optional budget: when the budget is exceeded the decoder panics, so an unbounded loop
+//! becomes a deterministic, replayable failure instead of a hang.
+
+use std::cell::Cell;
+
+thread_local! {
+    static OCTETS: Cell<u64> = const { Cell::new(0) };
+    static BUDGET: Cell<Option<u64>> = const { Cell::new(None) };
+}
+
+/// Reset the counter to zero and set the budget (`None` = unlimited).
+pub fn verif_reset(budget: Option<u64>) {
+    OCTETS.with(|c| c.set(0));
+    BUDGET.with(|b| b.set(budget));
+}
+
+/// Read the counter and reset it to zero.
+pub fn verif_take_octets() -> u64 {
+    OCTETS.with(|c| c.replace(0))
+}
+
+pub(crate) fn count_octets(n: usize) {
+    let total = OCTETS.with(|c| {
+        let total = c.get().saturating_add(n as u64);
+        c.set(total);
+        total
+    });
+    if let Some(budget) = BUDGET.with(|b| b.get()) {
+        if total > budget {
+            panic!("verif: octet budget exceeded: {} > {}", total, budget);
+        }
+    }
+}
